@@ -1028,6 +1028,7 @@ def run_scope(prog, rep, P, taint, entry_shorts, tag="", audited=None, extra_sco
     n_bound = n_guard = n_audit = n_open = 0
     seen = set()
     used_audits = set()
+    pending = []
     for s in sinks:
         key = s.key
         full = "%s.np|%s" % (P, key)
@@ -1043,6 +1044,9 @@ def run_scope(prog, rep, P, taint, entry_shorts, tag="", audited=None, extra_sco
             why = "audited: " + audited[key]
             how = "audit"
             used_audits.add(key)
+        if why is None:
+            pending.append(s)
+            continue
         if why is not None:
             if how == "bound":
                 n_bound += 1
@@ -1051,6 +1055,31 @@ def run_scope(prog, rep, P, taint, entry_shorts, tag="", audited=None, extra_sco
             else:
                 n_audit += 1
             rep.ob(P + ".np", key + tag, True, "%s on untrusted data in %s discharged: %s" % (s.kind + ":" + s.what, s.body.root_short, why), loc=q.loc(s.body, s.bb), how=how)
+    # second pass: a site whose operand roots changed (a local was hoisted, an accessor replaced by the field, a
+    # method by its free-function form) but which is still the same kind of operation in the same function is matched
+    # to that function's unused audit of the same class - one for one, so an *additional* unchecked operation is still
+    # reported.  Machine-checked guards attached to the audit were re-verified when the table was loaded.
+    def _cls(k):
+        fn, kind = k.split("|")[0], k.split("|")[1]
+        parts = kind.split(":")
+        if parts[0] == "api" and len(parts) >= 2:
+            kind = ":".join(parts[:2])
+        elif parts[0] == "panic":
+            kind = "panic"
+        return fn, kind
+
+    spare = {}
+    for k in audited:
+        if k not in used_audits and not k.startswith("_") and "|" in k:
+            spare.setdefault(_cls(k), []).append(k)
+    for s in pending:
+        key = s.key
+        c = _cls(key) if "|" in key else None
+        if c in spare and spare[c]:
+            k2 = spare[c].pop(0)
+            used_audits.add(k2)
+            n_audit += 1
+            rep.ob(P + ".np", key + tag, True, "%s on untrusted data in %s discharged: audited (matched by function and operation class to `%s`): %s" % (s.kind + ":" + s.what, s.body.root_short, k2, audited[k2]), loc=q.loc(s.body, s.bb), how="audit")
         else:
             n_open += 1
             rep.violation(
